@@ -8,8 +8,11 @@ mod hsys;
 mod oracles;
 mod p_builder;
 mod p_layout;
+mod p_meta;
 mod p_misc;
 mod p_sched;
+mod p_world;
+mod wtypes;
 mod plan;
 mod res;
 
@@ -678,9 +681,12 @@ fn sched_subs_for(id: &str) -> Vec<Sub> {
             },
         ],
         "C14g" => vec![],
+        "C17" => vec![sub(p_meta::C17, 60_000, 1_500_000)],
+        "C09" => vec![sub(p_world::C09, 60_000, 1_500_000)],
+        "C08" => vec![sub(p_world::C08, 60_000, 1_500_000)],
         "C11" => vec![Sub {
             max_lanes: 1,
-            ..sub(p_misc::C11, 120, 6_000)
+            ..sub(p_misc::C11, 300, 10_000)
         }],
         "C07" => vec![sched_sub(
             sp(
